@@ -19,6 +19,7 @@ chan ca[4];
 """
 # functions: writers (directly, through chains, inside every statement form, through reference parameters) and readers
 FUNCS = """
+int rval2(int v) { return v + 1; }
 int w0() { g = 1; return 1; }
 int w1() { return w0(); }
 int w2() { return w1() + 1; }
@@ -43,7 +44,28 @@ int wblock() { { { g = 1; } } return 1; }
 int wret() { return g = 1; }
 int wiif() { return h > 0 ? (g = 1) : 2; }
 int wcomma() { int i; for (i = 0, g = 1; i < 1; i++) { } return 1; }
+int wdo_cond() { int i = 0; do { i++; } while (g++ < 3); return 1; }
+int wdo_cond_call() { int i = 0; do { i++; } while (w0() < 0); return 1; }
+int wwhile_cond_call() { while (w0() < 0) { } return 1; }
+int welseif() { if (h > 0) { return 1; } else if (h < 0) { return 2; } else { g = 1; } return 1; }
+int wnested_loops() { int i; for (i = 0; i < 2; i++) { for (q : int[0,1]) { while (h > q) { do { g = 1; } while (false); } } } return 1; }
+int wcl_else() { int l; (h > 0 ? l : g) = 1; return 1; }
+int wcl_then() { int l; (h > 0 ? g : l) = 1; return 1; }
+int wcl_inc() { int l; (h > 0 ? l : g)++; return 1; }
+int wcl_plus() { int l; (h > 0 ? l : g) += 2; return 1; }
+int wcl_arr() { int l[3]; (h > 0 ? l[1] : a[1]) = 2; return 1; }
+int windex() { return a[g++ % 3]; }
+int wargument() { return rval2(g++); }
+int wcond() { return (g++ > 0) ? 1 : 2; }
+int wcallarg() { return rval2(w0()); }
+void setarr(int &r[3]) { r[0] = 1; }
+int wrefarr() { setarr(a); return 1; }
+void setS(S &r) { r.f = 1; }
+int wrefstruct() { setS(s); return 1; }
+int rcl_local() { int l; int l2; (h > 0 ? l : l2) = 1; return l; }
+int rlocalarr() { int l[3]; setarr(l); return l[0]; }
 void setref(int &r) { r = 1; }
+int wcl_ref() { int l; setref(h > 0 ? l : g); return 1; }
 int wref() { setref(g); return 1; }
 void fwd(int &r) { setref(r); }
 int wfwd() { fwd(g); return 1; }
@@ -58,10 +80,13 @@ int plocal() { int l = N; l++; return l; }
 """
 WRITER_CALLS = ["w0()", "w1()", "w2()", "w3()", "w4()", "wplus()", "winc()", "wdec()", "warr()", "wfield()", "wif()", "welse()",
                 "wfor_body()", "wfor_init()", "wfor_step()", "wfor_cond()", "wwhile()", "wwhile_cond()", "wdo()", "witer()",
-                "wblock()", "wret()", "wiif()", "wcomma()", "wref()", "wfwd()", "refarg(g)", "refarg(a[0])", "refarg(s.f)"]
+                "wblock()", "wret()", "wiif()", "wcomma()", "wref()", "wfwd()", "refarg(g)", "refarg(a[0])", "refarg(s.f)",
+                "wdo_cond()", "wdo_cond_call()", "wwhile_cond_call()", "welseif()", "wnested_loops()", "wcl_else()", "wcl_then()",
+                "wcl_inc()", "wcl_plus()", "wcl_arr()", "wcl_ref()", "windex()", "wargument()", "wcond()", "wcallarg()", "wrefarr()",
+                "wrefstruct()", "refarg(h > 0 ? h : g)"]
 DIRECT_WRITES = ["(g = 1)", "(g := 1)", "(g += 1)", "(g -= 1)", "(g *= 2)", "(g /= 2)", "(g %= 2)", "(g |= 1)", "(g &= 1)", "(g ^= 1)",
                  "(g <<= 1)", "(g >>= 1)", "g++", "g--", "++g", "--g", "(a[0] = 1)", "a[1]++", "(s.f = 2)", "++s.k", "(h = g = 1)"]
-READ_TWINS = ["g", "rf()", "rlocal()", "rval(3)", "rcref(g)", "rchain()", "a[0]", "s.f", "g + h"]
+READ_TWINS = ["rcl_local()", "rlocalarr()", "g", "rf()", "rlocal()", "rval(3)", "rcref(g)", "rchain()", "a[0]", "s.f", "g + h"]
 CONST_TWINS = ["N", "pure()", "plocal()", "N + 1", "rval(N)"]
 # the write form nested inside a larger expression of the context
 WRAPPERS = ["%s", "N + %s", "(%s) * 2", "pure() + %s", "(N > 1 ? %s : 1)", "abs(%s)", "rval(%s)", "(%s <? 7)", "-(%s)"]
@@ -99,6 +124,16 @@ CONTEXTS = {
     "sum-body-in-function-return": (False, lambda e: _m(decl_extra="int sf2() { return sum (q : int[0,2]) (%s + q); }" % e)),
     "probability": (False, None),   # built specially (branchpoint)
 }
+# writers and readers that are local to the template (they write the template's own variables)
+TLOCAL = "int tl; int tw() { tl = 1; return 1; } int tw2() { return tw(); } int twg() { g = 1; return 1; } int tr() { return tl + g; }"
+TL_CONTEXTS = {
+    "template-function-in-guard": lambda e: _m(tdecl=TLOCAL, edge_labels=[("guard", "%s > 0" % e)]),
+    "template-function-in-invariant": lambda e: _m(tdecl=TLOCAL, labels_loc=[("invariant", "x <= 5 && %s >= 0" % e)]),
+    "template-function-in-sync-index": lambda e: _m(tdecl=TLOCAL, edge_labels=[("synchronisation", "ca[%s]!" % e)]),
+    "template-function-in-local-init": lambda e: _m(tdecl=TLOCAL + " int after = %s;" % e),
+}
+TL_WRITES = ["tw()", "tw2()", "twg()", "(tl = 1)", "tl++"]
+TL_READS = ["tr()", "tl"]
 
 
 def prob_model(e):
@@ -141,6 +176,14 @@ def run(rep, tier, seed):
                 items.append((ctx, w, True, b(wr % w)))
             for t in twins:
                 items.append((ctx, t, False, b(wr % t)))
+    for ctx, b in TL_CONTEXTS.items():
+        for w in TL_WRITES:
+            items.append((ctx, w, True, b(w)))
+        for t in TL_READS:
+            if ctx.endswith("local-init") and t != "tr()":
+                pass
+            if not ctx.endswith("local-init"):
+                items.append((ctx, t, False, b(t)))
     vs = accept.verdicts([m for _, _, _, m in items], tag="c11")
     accepted_controls = 0
     for (ctx, form, is_write, _), v in zip(items, vs):
@@ -167,7 +210,19 @@ def run(rep, tier, seed):
             qitems.append((qn, w, True, qb(w)))
         for t in twins:
             qitems.append((qn, t, False, qb(t)))
-    qres = accept.with_queries([(QMODEL, [q]) for _, _, _, q in qitems], tag="c11q")
+    qmodels = [QMODEL] * len(qitems)
+    # process-qualified calls of template-local functions
+    tlm = xmlgen.simple_model(decl=BASE_DECL.replace("chan c;", "broadcast chan c;").replace("chan ca[4];", "broadcast chan ca[4];") + FUNCS,
+                              tdecl=TLOCAL, system="P1 = P();\nsystem P1;")
+    for qn, qb in (("query-predicate", QUERY_CONTEXTS["query-predicate"]), ("query-sup", QUERY_CONTEXTS["query-sup"]),
+                   ("query-pr", QUERY_CONTEXTS["query-pr"])):
+        for w in ("P1.tw()", "P1.tw2()", "P1.twg()", "(P1.tl = 1)", "P1.tl++"):
+            qitems.append((qn + "/process-qualified", w, True, qb(w)))
+            qmodels.append(tlm)
+        for t in ("P1.tr()", "P1.tl"):
+            qitems.append((qn + "/process-qualified", t, False, qb(t)))
+            qmodels.append(tlm)
+    qres = accept.with_queries([(mm, [q]) for mm, (_, _, _, q) in zip(qmodels, qitems)], tag="c11q")
     for (qn, form, is_write, q), r in zip(qitems, qres):
         if r["crash"] is not None:
             rep.crash(r["crash"], r["case"])
